@@ -7,6 +7,7 @@ CONSTANTS
   SameStride = 1
   AttrStride = 2
   TripleStride = 3
+  ValueStride = 20
   ShapeFrom = "named dims"
 CONSTRAINT Export
 INVARIANT ImplRefinesReq
